@@ -11,7 +11,9 @@ plus every pair of faults from a reduced alphabet at two different steps.
 Oracle: a state query returns a response object of its class or raises exactly RuntimeError; a
 generic operation returns a response whose `successful` is (reply non-empty) - or, for an empty
 reply, raises RuntimeError; with an empty login reply, state queries and all type-2 operations raise
-RuntimeError and the device log holds the login frame only.
+RuntimeError and the device log holds the login frame only.  After the device ended the stream, a further
+state query and a further generic operation on the same object are judged the same way; and a response
+object keeps reporting what it reported when it was returned, whatever the client does afterwards.
 """
 import itertools
 
@@ -185,7 +187,25 @@ class Runner:
         out, writes, rx = w.run_op(op, script=script, state2_reply=None)
         if out[0] == "hang":
             w.dirty = True
+        self.last_world = w
         return out, writes, delivered
+
+    def follow_up(self, case, res):
+        """After the device ended the stream: further calls on the same object still obey the property."""
+        w = self.last_world
+        kind = w.kind
+        q = "get_state" if kind == 1 else "get_breeze_state"
+        out, writes, _ = w.run_op(q)
+        if out[0] != "exc" or type(out[1]) is not RuntimeError:
+            res.violation(f"state-query-after-eof:{type(out[1]).__name__ if out[0] == 'exc' else out[0]}", dict(case, follow_up=q),
+                          f"{case['op']} with faults {case['faults']} ended the stream; a following {q} on the same object -> {out[0]} {out[1]!r}, expected RuntimeError",
+                          "RuntimeError", repr(out[1]))
+        g = "control_on" if kind == 1 else "set_position"
+        out, writes, _ = w.run_op(g)
+        okg = (out[0] == "exc" and type(out[1]) is RuntimeError) or (out[0] == "ok" and not out[1].successful)
+        if not okg:
+            res.violation(f"generic-after-eof:{type(out[1]).__name__ if out[0] == 'exc' else out[0]}", dict(case, follow_up=g),
+                          f"{case['op']} with faults {case['faults']} ended the stream; a following {g} on the same object -> {out[0]} {out[1]!r}, expected RuntimeError or an unsuccessful response")
 
     def close(self):
         for w in self.w.values():
@@ -292,9 +312,28 @@ def run_job(job):
     cases = all_cases(job["tier"])[job["i"]::job["n"]]
     run = Runner()
     try:
+        kept = {}  # per API object: the previous response and what it said when it was returned
         for case in cases:
             out, writes, delivered = run.run(case)
             ok = judge(case, out, writes, delivered, res)
+            w = run.last_world
+            prev = kept.get(id(w))
+            if prev is not None:
+                # a response object keeps saying what it said, whatever the client does afterwards
+                pr, psucc, praw, pcase = prev
+                try:
+                    now = (bool(pr.successful), bytes(pr.unparsed_response or b""))
+                except Exception as exc:  # noqa: BLE001
+                    now = repr(exc)
+                if now != (psucc, praw):
+                    res.violation("response-changes-after-later-operation", {"op": pcase["op"], "faults": pcase["faults"], "then": case},
+                                  f"the response of {pcase['op']} {pcase['faults']} said successful={psucc} ({len(praw)} bytes); after the next operation on the same client it says {now if isinstance(now, str) else (now[0], len(now[1]))}")
+            if out[0] == "ok" and hasattr(out[1], "successful") and not getattr(w, "dirty", False):
+                kept[id(w)] = (out[1], bool(out[1].successful), bytes(out[1].unparsed_response or b""), case)
+            else:
+                kept.pop(id(w), None)
+            if None in w.conn.sent and not case.get("cold") and out[0] != "hang":
+                run.follow_up(case, res)  # the device really ended the stream during this operation
             res.case((case["op"], case["faults"], case.get("cold")), nontrivial=ok is not None)
             res.counters["fault:" + next(iter(case["faults"].values()))[0]] += 1
             if len(res.samples) < 1 and len(case["faults"]) == 2:
@@ -308,8 +347,20 @@ def replay(case):
     res = Res()
     run = Runner()
     try:
+        if "then" in case:
+            first = {"op": case["op"], "faults": case["faults"]}
+            out, writes, delivered = run.run(first)
+            if out[0] == "ok":
+                was = (bool(out[1].successful), bytes(out[1].unparsed_response or b""))
+                run.run(case["then"])
+                now = (bool(out[1].successful), bytes(out[1].unparsed_response or b""))
+                if now != was:
+                    res.violation("response-changes-after-later-operation", case, f"response said {was[0]}, now says {now[0]}")
+            return res.violations
         out, writes, delivered = run.run(case)
         judge(case, out, writes, delivered, res)
+        if case.get("follow_up"):
+            run.follow_up(case, res)
     finally:
         run.close()
     return res.violations
